@@ -53,7 +53,7 @@ pub struct Cfg {
 }
 
 pub const FINE: [usize; 12] = [0, 1, 2, 63, 64, 65, 127, 128, 960, 1023, 1024, 1025];
-pub const COARSE: [usize; 10] = [1024, 2048, 3072, 4096, 7168, 8192, 16384, 17408, 32768, 65536];
+pub const COARSE: [usize; 12] = [1024, 2048, 3072, 4096, 7168, 8192, 16384, 17408, 32768, 65536, 131072, 262144];
 pub const COARSE_DEV: [usize; 4] = [1, 1023, 1025, 17 * 1024 + 1];
 
 pub fn cfg_fine(prop: &str, thorough: bool) -> Cfg {
@@ -80,7 +80,7 @@ pub fn cfg_coarse(prop: &str, thorough: bool) -> Cfg {
         moves: COARSE.to_vec(),
         deviations: COARSE_DEV.to_vec(),
         max_dev: if thorough { 3 } else { 2 },
-        max_total: if thorough { 300 * 1024 } else { 70 * 1024 },
+        max_total: if thorough { 1100 * 1024 } else { 300 * 1024 },
         with_reset: false,
         offsets: vec![],
         traits_lane: false,
@@ -353,7 +353,7 @@ fn reset_diff_key(after: &blake3::Hasher, fresh: &blake3::Hasher) -> String {
 pub fn explore(cfg: &Cfg, mode: &ModeSpec, lname: &str, level: P, stream: &str, rep: &mut Report) {
     subject::force(Some(level));
     let seed = subject::seed();
-    let slack = 70 * 1024;
+    let slack = 1024;
     let data = vcommon::stream(stream, seed, cfg.max_total + slack);
     let mode2 = mode2_for(mode);
     let data2 = vcommon::stream("C", seed, cfg.max_total + slack);
@@ -571,7 +571,7 @@ pub fn replay(v: &Value) -> bool {
         max_states: 1,
     };
     let seed = subject::seed();
-    let data = vcommon::stream(&stream, seed, cfg.max_total + 70 * 1024);
+    let data = vcommon::stream(&stream, seed, cfg.max_total + 1024);
     let mode2 = mode2_for(&mode);
     let mut cx = Ctx {
         cfg: &cfg,
@@ -580,7 +580,7 @@ pub fn replay(v: &Value) -> bool {
         lname: level,
         stream: &stream,
         data: &data,
-        data2: vcommon::stream("C", seed, cfg.max_total + 70 * 1024),
+        data2: vcommon::stream("C", seed, cfg.max_total + 1024),
         oracle: b3spec::StreamOracle::new(mode.spec(), data.clone()),
         fresh_bytes: vec![],
         arena: vec![(0, Op::Reset)],
